@@ -1025,6 +1025,7 @@ class FnEmitter:
         if self.spec and k in self.spec.loops:
             self.used_anchors.add(('loop', k))
             lines = self.gen.tag_lines(self.spec, self.spec.loops[k])
+            self.gen.loop_invs.setdefault(self.fn.cname, {})[k] = inv_record = []
             if self.it_locals:
                 # iterators of the reassembly map that are live across the loop: the loop may reassign them, and at every loop head each one is
                 # in step with the map: end() when the observed key has no element, else referring to the live element (erase invalidates it) - generated
@@ -1039,7 +1040,11 @@ class FnEmitter:
                 pos = next((i for i, l in enumerate(out) if str(l).lstrip().startswith('__CPROVER_decreases')), len(out))
                 for nm in self.it_locals:
                     out.insert(pos, SpecLine(f"__CPROVER_loop_invariant({nm}.at_end != 0 ? {self.the_map()}->present == 0 : ({nm}.epoch == {self.the_map()}->epoch && {self.the_map()}->present != 0))", lines[0].path, lines[0].line, ['C02:map.iterator_valid_at_loop_head']))
-                return out
+                lines = out
+            # CBMC names the obligations of a loop contract <function>.loop_invariant_{base,step}.<ordinal of the invariant clause>: remember the clauses in order
+            for l in lines:
+                if str(l).lstrip().startswith('__CPROVER_loop_invariant'):
+                    inv_record.append({'spec': l.path, 'line': l.line, 'tags': l.tags, 'text': str(l).strip()})
             return lines
         return []
 
@@ -1454,6 +1459,7 @@ class Generator:
         self.lines = []; self.linemap = {}   # output line -> (spec path, spec line, tags, text)
         self.known_cnames = set()
         self.report = {'translated': [], 'skipped': [], 'excluded': []}
+        self.loop_invs = {}
         self.used_specs = set()
         self.helper_protos = collections.OrderedDict(); self.helper_bodies = collections.OrderedDict()
         self.pending_helpers = []
@@ -2035,7 +2041,7 @@ def run(ast_dir, spec_paths, excluded_path, out_c, out_map, out_report, layouts_
         dropped.append(nm)
         harnesses = [h for h in harnesses if h['enforce'] != nm]
         for h in harnesses: h['replace'] = [x for x in h['replace'] if x != nm]
-    json.dump({'lines': linemap, 'harnesses': harnesses, 'slices': slices}, open(out_map, 'w'), indent=0)
+    json.dump({'lines': linemap, 'harnesses': harnesses, 'slices': slices, 'loop_invariants': gen.loop_invs}, open(out_map, 'w'), indent=0)
     rep = {'unused_loop_contracts': gen.report.get('unused_loop_contracts', []), 'helper_specs': helper_specs, 'dropped_helper_contracts': dropped, 'translated': gen.report['translated'], 'skipped': gen.report['skipped'], 'excluded': gen.report['excluded'],
            'spec_without_target': missing, 'n_records': len(ctx.records), 'n_enums': len(ctx.enums),
            'cnames': {f.cname: {'q': f.q, 'type': f.type_str, 'has_body': f.body is not None} for f in ctx.funcs.values() if f.cname}}
